@@ -36,7 +36,32 @@ func (x *Exec) chanSend(st *State, ch Val, v Val, blocking bool) {
 	st.addEvent(Event{Kind: "chansend", Args: []Val{ch, v}})
 }
 
+// isCtxDone: the channel is the result of a (context.Context).Done call - waiting on it is waiting for
+// cancellation, which is what the code means to do.
+func isCtxDone(v ssa.Value) bool {
+	c, ok := v.(*ssa.Call)
+	if !ok {
+		return false
+	}
+	if c.Call.IsInvoke() {
+		return c.Call.Method.Name() == "Done" && c.Call.Method.Pkg() != nil && c.Call.Method.Pkg().Path() == "context"
+	}
+	return false
+}
+
+// chanRecv models a plain receive <-ch outside select. It waits until a value arrives: unless the channel is
+// known to hold a value (its len() was just observed non-zero on this path; A-chanlen: no competing receiver)
+// or it is a context's Done channel, that is a blocking obligation (C08: the connection loop and the
+// handlers must not wait on a channel nobody is bound to feed).
 func (x *Exec) chanRecv(st *State, in *ssa.UnOp, ch Val) {
+	if !isCtxDone(in.X) {
+		goal := x.chanReady(st, ch)
+		if l, ok := st.chanLens[ch.T().S]; ok {
+			goal = Or(goal, Gt(l, TZero))
+			x.assumeNote("A-chanlen: a channel whose len() was just observed non-zero holds a value for a plain receive (no competing receiver)")
+		}
+		st.oblige("blocking:chanrecv:"+x.site("recv"), []string{"C08"}, goal, "a plain channel receive cannot block forever (a value is known to be buffered)")
+	}
 	v := st.symbolic(chanElem(ch.Typ), "recv")
 	st.addEvent(Event{Kind: "chanrecv", Args: []Val{ch}})
 	if in.CommaOk {
